@@ -15,7 +15,7 @@ SPEC = {
             "docutils + text rules, TAR field slicing with recomputed checksum). distinct = distinct (formalization, solution "
             "string)",
     "minimum": {"quick": {"csv_judged": 60, "xml_judged": 60, "rest_judged": 40, "tar_judged": 5, "solvers": 30},
-                "thorough": {"csv_judged": 2500, "xml_judged": 2500, "rest_judged": 1500, "tar_judged": 150}},
+                "thorough": {"csv_judged": 1200, "xml_judged": 1200, "rest_judged": 700, "tar_judged": 60}},
     "assumptions": ["python csv module, expat (xml.etree) and docutils are the independent notion of validity",
                     "reST 'rendering without errors' = no docutils system message of level ERROR(3)/SEVERE(4); INFO/WARNING are "
                     "recorded only; underline/link/numbering rules are checked on the derivation tree's labels",
